@@ -12,7 +12,8 @@
 (*   SetAlpha(b, w)  the coefficients of block b change, branch w now wins  *)
 (*   SetHard(h)      update_softmax_options(hard = h)                       *)
 (*   SetMode(t)      train() / eval()                                       *)
-(*   Forward, Summary  both re-sample theta_alpha from the coefficients     *)
+(*   Forward re-samples theta_alpha from the coefficients; Summary is an    *)
+(*   observer since plinio commit ba220ec (it used to re-sample as well)   *)
 (* export() and cost are observers: they are derived operators evaluated in *)
 (* EVERY reachable state by the invariants below (and executed on the real  *)
 (* library in every reachable state by the harness).                        *)
@@ -77,7 +78,7 @@ SetMode(t) ==
 Resample == cls' = [b \in 1..Len(net.blocks) |-> SampleClass(net.gumbel, hard, training, win[b])]
 
 Forward == "Forward" \in Acts /\ Resample /\ UNCHANGED <<net, win, hard, training>>
-Summary == "Summary" \in Acts /\ Resample /\ UNCHANGED <<net, win, hard, training>>
+Summary == "Summary" \in Acts /\ UNCHANGED <<net, win, hard, training, cls>>
 
 Next ==
     \/ \E b \in 1..MaxBlocks, w \in 0..MaxW : SetAlpha(b, w)    \* constant bounds: one labelled action per (b, w)
